@@ -120,6 +120,13 @@ func (g *FnGen) eval(env *Env, x Expr) SVal {
 				if b, ok := t.Underlying().(*types.Basic); ok && b.Kind() == types.Uint8 {
 					facts = append(facts, fmt.Sprintf("(and (<= 0 %s) (<= %s 255))", name, name))
 				}
+				// quantification over references ranges over the allocated objects of that type
+				if pt, ok := types.Unalias(t).Underlying().(*types.Pointer); ok {
+					if _, isStruct := pt.Elem().Underlying().(*types.Struct); isStruct {
+						w.heapSort["typ"] = "(Array Int Int)"
+						facts = append(facts, fmt.Sprintf("(and (< 0 %s) (<= %s %s) (= (select %s %s) %d))", name, name, g.allocTerm(env.st).S, g.hget(env.st, "typ").S, name, w.structID(pt.Elem())))
+					}
+				}
 			}
 		}
 		body := g.eval(&n, x.Body)
@@ -201,11 +208,11 @@ func (g *FnGen) evalIdent(env *Env, name string) SVal {
 			return env.results[i]
 		}
 	}
-	if v, ok := env.vars[name]; ok {
+	if v, ok := env.vars[name]; ok && (env.at == nil || env.depth > 0) {
 		return v
 	}
-	// locals (loop invariants)
-	if env.at != nil {
+	// locals (loop invariants): a reassigned parameter is a phi carrying the parameter's name
+	if env.at != nil && env.depth == 0 {
 		for _, blk := range g.fn.Blocks {
 			if blk != env.at && !blk.Dominates(env.at) {
 				continue
@@ -249,6 +256,9 @@ func (g *FnGen) evalIdent(env *Env, name string) SVal {
 				return SVal{g.constTerm(c), c.Type()}
 			}
 		}
+	}
+	if v, ok := env.vars[name]; ok {
+		return v
 	}
 	// package-level variables
 	if sp := g.w.spkgs[env.pkg]; sp != nil {
@@ -399,7 +409,11 @@ func (g *FnGen) evalBinary(env *Env, x *EBinary) SVal {
 			if a.Sort != b.Sort {
 				env.fail("comparison of sorts %s and %s", a.Sort, b.Sort)
 			}
-			eq = fmt.Sprintf("(= %s %s)", a.S, b.S)
+			if a.Sort == "String" {
+				eq = fmt.Sprintf("(streq %s %s)", a.S, b.S)
+			} else {
+				eq = fmt.Sprintf("(= %s %s)", a.S, b.S)
+			}
 		}
 		if x.Op == "!=" {
 			eq = "(not " + eq + ")"
@@ -541,6 +555,13 @@ func (g *FnGen) evalCall(env *Env, x *ECall) SVal {
 			}
 		}
 		env.fail("no iterator for loop %d", k)
+	case "funcval":
+		key := x.Args[0].(*EStr).V
+		f := w.funcs[key]
+		if f == nil {
+			env.fail("funcval: unknown function %s", key)
+		}
+		return SVal{g.funcValue(f), f.Type()}
 	case "ncalls":
 		ck := "Calls:" + x.Args[0].(*EStr).V
 		w.heapSort[ck] = "Int"
@@ -607,10 +628,20 @@ func (g *FnGen) evalCall(env *Env, x *ECall) SVal {
 			ss = append(ss, a.Sort)
 		}
 		f := w.findFunc(key)
+		var rt types.Type
 		if f == nil {
-			env.fail("pure: unknown function %s", key)
+			con := w.contracts[key]
+			if con == nil || idx >= len(con.Returns) {
+				env.fail("pure: unknown function %s", key)
+			}
+			var err error
+			rt, err = w.resolveType(env.pkg, con.Returns[idx])
+			if err != nil {
+				env.fail("%v", err)
+			}
+		} else {
+			rt = f.Signature.Results().At(idx).Type()
 		}
-		rt := f.Signature.Results().At(idx).Type()
 		srt := w.sortOf(rt)
 		name := q(fmt.Sprintf("pure:%s:%d", key, idx))
 		w.decl(name+strings.Join(ss, ","), fmt.Sprintf("(declare-fun %s (%s) %s)", name, strings.Join(ss, " "), srt))
